@@ -248,7 +248,7 @@ FILE *fopen(const char *path, const char *mode)
     (void)mode;
     g_rp_opens++;
     V_ASSERT(g_rp_opens <= 6, "C12: rpname walks a two-level process tree with at most three reads");
-    if (strcmp(path, "/proc/50/status") == 0) i = 0;
+    if (strcmp(path, "/proc/50/status") == 0 || strcmp(path, "/proc/self/status") == 0) i = 0;
     else if (strcmp(path, "/proc/40/status") == 0) i = 1;
     else { g_rp_foreign = 1; errno = ENOENT; return NULL; }
     if (v_choice() & 1) { errno = ENOENT; return NULL; }          /* process gone, procfs not mounted, EMFILE ... */
@@ -323,7 +323,7 @@ int snoopy_util_file_getSmallTextFileContent(char const * const filePath, char *
 {
     char *c = malloc(CG_CAP);
     g_cg_reads++;
-    if (strcmp(filePath, "/proc/50/cgroup") != 0) g_cg_foreign = 1;
+    if (strcmp(filePath, "/proc/50/cgroup") != 0 && strcmp(filePath, "/proc/self/cgroup") != 0) g_cg_foreign = 1;
     if (v_choice() & 1) { c[0] = 'E'; c[1] = '\0'; *contentPtrAddr = c; return -1; }
     for (int k = 0; k < 2 * CG_LINE + 1; k++) c[k] = g_cg_text[k];
     *contentPtrAddr = c;
